@@ -44,6 +44,7 @@ from phonopy.harmonic.dynamical_matrix import (
     DynamicalMatrix,
     DynamicalMatrixGL,
     DynamicalMatrixNAC,
+    DynamicalMatrixWang,
 )
 from phonopy.phonon.degeneracy import degenerate_sets
 from phonopy.structure.symmetry import Symmetry
@@ -231,8 +232,13 @@ class GroupVelocity:
     def _symmetrize_group_velocity(self, gv, q):
         """Symmetrize obtained group velocities using site symmetries."""
         rotations = []
-        for r in self._symmetry.reciprocal_operations:
+        # The NAC term by Wang et al. is not periodic in q, therefore
+        # q must not be folded to find its little group.
+        if isinstance(self._dynmat, DynamicalMatrixWang):
+            q_in_BZ = np.array(q, dtype="double")
+        else:
             q_in_BZ = q - np.rint(q)
+        for r in self._symmetry.reciprocal_operations:
             diff = q_in_BZ - np.dot(r, q_in_BZ)
             if (np.abs(diff) < self._symmetry.tolerance).all():
                 rotations.append(r)
